@@ -37,14 +37,21 @@ type Case struct {
 
 var sub = evid.Register("prune", run)
 
-const poolSize = 5
+const poolSize = 7
 
 // pool builds tables that share blocks: all have 300 rows (2 blocks); variants differ in a row of the
-// second block (sharing block 1), of the first block (sharing block 2), or in both.
+// second block (sharing block 1), of the first block (sharing block 2), or in both. Variants 5 and 6
+// hold the rows of variant 0 under another primary key ([id,v] / none): the rows sort the same
+// way, so the blocks are shared while the block indices are not (more block indices than blocks).
 func pool(db objects.Store) ([][]byte, error) {
 	var sums [][]byte
 	for v := 0; v < poolSize; v++ {
 		t := gen.Table{Cols: []string{"id", "v"}, PK: []int{0}}
+		if v == 5 {
+			t.PK = []int{0, 1}
+		} else if v == 6 {
+			t.PK = []int{}
+		}
 		for i := 0; i < 300; i++ {
 			val := "x"
 			if (v == 1 || v == 3) && i == 290 {
